@@ -24,6 +24,12 @@ fn guarded<F: FnOnce() -> Value>(f: F) -> Value {
     }
 }
 
+// worker threads get the stack the main thread has and more: deep inputs (200-term operator chains) overflow the 2 MiB default
+// of spawned threads and abort the process -- a robustness matter (C12), not what the thread streams of C11 are about
+fn big_stack_thread<T: Send + 'static, F: FnOnce() -> T + Send + 'static>(f: F) -> std::thread::JoinHandle<T> {
+    std::thread::Builder::new().stack_size(256 << 20).spawn(f).expect("spawn")
+}
+
 fn err_text(e: &prqlc::ErrorMessages) -> Value {
     // everything a caller can read from an error: kind, code, reason, hints, span, display, location
     errs(prqlc::ErrorMessages { inner: e.inner.clone() })
@@ -123,7 +129,7 @@ fn cmd_par(req: &Value) -> Value {
     for i in 0..n {
         let r = reqs[i % reqs.len()].clone();
         let b = barrier.clone();
-        handles.push(std::thread::spawn(move || {
+        handles.push(big_stack_thread(move || {
             b.wait();
             let mut v = vec![];
             for _ in 0..m {
@@ -316,7 +322,7 @@ fn cmd_names(req: &Value) -> Value {
         for i in 0..n {
             let r = reqs[i % reqs.len()].clone();
             let b = barrier.clone();
-            handles.push(std::thread::spawn(move || {
+            handles.push(big_stack_thread(move || {
                 b.wait();
                 let mut v = vec![];
                 for _ in 0..m {
